@@ -10,8 +10,10 @@ import (
 
 // Loopback UDP model: sockets are in-memory datagram queues addressed by port number.
 type udpSock struct {
-	port  int
-	queue []udpDgram
+	port     int
+	queue    []udpDgram
+	closed   bool
+	deadline bool // a read deadline has been set: reads time out when nothing else can happen
 }
 
 type udpDgram struct {
@@ -97,13 +99,17 @@ func init() {
 		if s == nil {
 			return Tuple{e.tb.Const(64, 0), Ptr{}, nilConnErr(e)}
 		}
-		if len(s.queue) == 0 {
-			e.runPendingTasks()
+		if s.closed {
+			return Tuple{e.tb.Const(64, 0), Ptr{}, e.errorValue(e.strConst("use of closed network connection"))}
 		}
 		if len(s.queue) == 0 {
-			if e.inTask > 0 {
-				panic(taskParked{}) // a goroutine's receive loop with nothing left to receive
-			}
+			// wait for a datagram or for Close; with a read deadline (or on the harness' own stack) the wait may time out
+			e.block(func() bool { return len(s.queue) > 0 || s.closed }, s.deadline || e.cur == nil)
+		}
+		if s.closed {
+			return Tuple{e.tb.Const(64, 0), Ptr{}, e.errorValue(e.strConst("use of closed network connection"))}
+		}
+		if len(s.queue) == 0 {
 			return Tuple{e.tb.Const(64, 0), Ptr{}, netTimeoutError(e)}
 		}
 		d := s.queue[0]
@@ -119,9 +125,20 @@ func init() {
 		return Tuple{e.tb.Const(64, uint64(n)), e.newUDPAddr(d.from), Iface{}}
 	})
 	for _, m := range []string{"SetReadDeadline", "SetWriteDeadline", "SetDeadline", "Close"} {
+		m := m
 		f := func(e *Exec, fn *ssa.Function, a []Value) Value {
-			if e.sockOf(a[0]) == nil {
+			sk := e.sockOf(a[0])
+			if sk == nil {
 				return nilConnErr(e)
+			}
+			switch m {
+			case "Close":
+				if sk.closed {
+					return e.errorValue(e.strConst("use of closed network connection"))
+				}
+				sk.closed = true
+			case "SetReadDeadline", "SetDeadline":
+				sk.deadline = true
 			}
 			return Iface{}
 		}
@@ -161,6 +178,18 @@ func init() {
 	})
 	reg("(*sync.Map).Delete", func(e *Exec, fn *ssa.Function, a []Value) Value {
 		e.mapDelete(smap(e, a[0]), a[1])
+		return nil
+	})
+	reg("(*sync.Map).Range", func(e *Exec, fn *ssa.Function, a []Value) Value {
+		m := smap(e, a[0])
+		cl := a[1].(*Closure)
+		entries := append([]mapEntry{}, m.Entries...)
+		for _, en := range entries {
+			r := e.callFunction(cl.Fn, []Value{en.K, en.V}, cl.Bind)
+			if t, ok := r.(*sym.Term); ok && t.IsFalse() {
+				break
+			}
+		}
 		return nil
 	})
 	reg("(*sync.Once).Do", func(e *Exec, fn *ssa.Function, a []Value) Value {
@@ -218,7 +247,7 @@ func init() {
 	// time.After: a channel that is ready at once (a select listing it last models "otherwise, time out")
 	reg("time.After", func(e *Exec, fn *ssa.Function, a []Value) Value {
 		e.nextObj++
-		return &ChanObj{ID: e.nextObj, Cap: 1, Buf: []Value{e.mkTime(e.tb.Const(64, 0), e.tb.Const(64, 0))}}
+		return &ChanObj{ID: e.nextObj, Cap: 1, Timer: true, Buf: []Value{e.mkTime(e.tb.Const(64, 0), e.tb.Const(64, 0))}}
 	})
 	_ = fmt.Sprint
 }
